@@ -33,10 +33,14 @@ inductive Grp where
   | integ        -- qH, qHDiagInv, qDeriv, qLU (integrator scratch)
   | actuation    -- act_dot, actuator_force, qfrc_actuator
   | smooth       -- qfrc_smooth, qacc_smooth
-  | cfrc         -- qfrc_constraint, efc_force
+  | cfrc         -- qfrc_constraint
+  | efc_force    -- efc_force
   | cstate       -- efc_state (not claimed: with islands the CG / Newton solvers leave it at the warm-start point or stale)
-  | csol         -- efc_b, solver_niter
-  | iscratch     -- island-ordered solver vectors (ifrc_*, iacc*, iefc_aref/state/force)
+  | csol         -- solver_niter
+  | efc_b        -- efc_b
+  -- island-ordered solver vectors, one group per array (their value is the prefix the island maps designate)
+  | ifrc_smooth | iacc_smooth | iacc | ifrc_constraint | iefc_aref | iefc_force
+  | iscratch     -- iefc_state
   | qacc
   | qfrc_inverse
   | rnepost      -- lazy cache: flg_rnepost + cacc, cfrc_int, cfrc_ext
@@ -56,7 +60,8 @@ open Grp
 
 def Grp.all : List Grp :=
   [time, qpos, qvel, act, history, qacc_warmstart, plugin_state, ctrl, qfrc_applied, xfrc_applied, eq_active,
-   mocap_pos, mocap_quat, userdata, pos, vel, subtreevel, integ, actuation, smooth, cfrc, cstate, csol, iscratch, Grp.qacc,
+   mocap_pos, mocap_quat, userdata, pos, vel, subtreevel, integ, actuation, smooth, cfrc, efc_force, cstate, csol, efc_b,
+   ifrc_smooth, iacc_smooth, iacc, ifrc_constraint, iefc_aref, iefc_force, iscratch, Grp.qacc,
    qfrc_inverse, rnepost, ePos, eVel, sensPos, sensVel,
    sensAcc, fwdinv, sleep, diag, memc, stack, handle, locals]
 
@@ -66,7 +71,10 @@ def Grp.name : Grp → String
   | qfrc_applied => "qfrc_applied" | xfrc_applied => "xfrc_applied" | eq_active => "eq_active"
   | mocap_pos => "mocap_pos" | mocap_quat => "mocap_quat" | userdata => "userdata"
   | pos => "pos" | vel => "vel" | subtreevel => "subtreevel" | integ => "integ" | actuation => "actuation"
-  | smooth => "smooth" | cfrc => "cfrc" | cstate => "cstate" | csol => "csol" | iscratch => "iscratch" | Grp.qacc => "qacc"
+  | smooth => "smooth" | cfrc => "cfrc" | efc_force => "efc_force" | cstate => "cstate" | csol => "csol" | efc_b => "efc_b"
+  | ifrc_smooth => "ifrc_smooth" | iacc_smooth => "iacc_smooth" | iacc => "iacc" | ifrc_constraint => "ifrc_constraint"
+  | iefc_aref => "iefc_aref" | iefc_force => "iefc_force"
+  | iscratch => "iscratch" | Grp.qacc => "qacc"
   | qfrc_inverse => "qfrc_inverse" | rnepost => "rnepost"
   | ePos => "ePos" | eVel => "eVel" | sensPos => "sensPos" | sensVel => "sensVel" | sensAcc => "sensAcc"
   | fwdinv => "fwdinv" | sleep => "sleep" | diag => "diag" | memc => "memc" | stack => "stack"
@@ -77,8 +85,11 @@ def stateGroups : List Grp :=
   [time, qpos, qvel, act, history, qacc_warmstart, plugin_state, ctrl, qfrc_applied, xfrc_applied, eq_active,
    mocap_pos, mocap_quat, userdata]
 
-/-- groups that consist of exactly one scalar member of mjData (a plain `d->x = …` determines them) -/
-def scalarGroups : List Grp := [time]
+/-- groups that consist of exactly one member of mjData (`C01.singleton_groups_have_one_member`): a plain `d->x = …` of a
+    scalar member, or a utility call that overwrites the whole array (translate/skeleton.py, WHOLE_WRITERS), determines
+    them -/
+def scalarGroups : List Grp :=
+  [time, Grp.qacc, cfrc, efc_force, cstate, csol, efc_b, ifrc_smooth, iacc_smooth, iacc, ifrc_constraint, iefc_aref, iefc_force]
 
 /-- the lazily evaluated caches: (group, flag member, cached members).  The *value* of such a group is the
     flag together with, when the flag is set, the cached arrays; the arrays of an invalid cache (flag = 0)
@@ -168,10 +179,10 @@ def grp (f : String) : List Grp :=
   -- acceleration stage
   | "act_dot" => [actuation] | "actuator_force" => [actuation] | "qfrc_actuator" => [actuation]
   | "qfrc_smooth" => [smooth] | "qacc_smooth" => [smooth]
-  | "qfrc_constraint" => [cfrc] | "efc_force" => [cfrc] | "efc_state" => [cstate]
-  | "efc_b" => [csol]
-  | "ifrc_smooth" => [iscratch] | "iacc_smooth" => [iscratch] | "iacc" => [iscratch] | "iefc_aref" => [iscratch]
-  | "iefc_state" => [iscratch] | "iefc_force" => [iscratch] | "ifrc_constraint" => [iscratch]
+  | "qfrc_constraint" => [cfrc] | "efc_force" => [efc_force] | "efc_state" => [cstate]
+  | "efc_b" => [efc_b]
+  | "ifrc_smooth" => [ifrc_smooth] | "iacc_smooth" => [iacc_smooth] | "iacc" => [iacc] | "iefc_aref" => [iefc_aref]
+  | "iefc_state" => [iscratch] | "iefc_force" => [iefc_force] | "ifrc_constraint" => [ifrc_constraint]
   | "qacc" => [Grp.qacc] | "qfrc_inverse" => [qfrc_inverse]
   | "cacc" => [rnepost] | "cfrc_int" => [rnepost] | "cfrc_ext" => [rnepost]
   | "$locals" => [locals]
@@ -181,11 +192,15 @@ def grp (f : String) : List Grp :=
 
 /-- all groups that hold simulation data derived from the state (what mj_resetData / arena re-layout may touch) -/
 def derivedGroups : List Grp :=
-  [pos, vel, subtreevel, integ, actuation, smooth, cfrc, cstate, csol, iscratch, Grp.qacc, qfrc_inverse, rnepost,
+  [pos, vel, subtreevel, integ, actuation, smooth, cfrc, efc_force, cstate, csol, efc_b, ifrc_smooth, iacc_smooth, iacc,
+   ifrc_constraint, iefc_aref, iefc_force, iscratch, Grp.qacc, qfrc_inverse, rnepost,
    ePos, eVel, sensPos, sensVel, sensAcc, fwdinv, sleep]
 
+/-- the island-ordered solver vectors -/
+def islandGroups : List Grp := [ifrc_smooth, iacc_smooth, iacc, ifrc_constraint, iefc_aref, iefc_force, iscratch]
+
 /-- groups living (partly) in the arena: re-allocated, hence clobbered, by every position stage -/
-def arenaGroups : List Grp := [vel, cfrc, cstate, csol, iscratch]
+def arenaGroups : List Grp := [vel, cfrc, efc_force, cstate, csol, efc_b] ++ islandGroups
 
 /-- stack discipline + allocation constants: read by everything that allocates.  A stage function leaves
     pstack / pbase as it found them (mj_markStack / mj_freeStack are balanced; validated by V1), so `stack` is
@@ -197,8 +212,40 @@ def sensCommon : List Grp := [time, history]
 
 /-- what an integrator (mj_EulerSkip / mj_implicitSkip / mj_advance) may read -/
 def integratorReads : List Grp :=
-  [qpos, qvel, act, time, ctrl, history, plugin_state, Grp.qacc, actuation, pos, vel, smooth, cfrc, sensPos, sensVel,
+  [qpos, qvel, act, time, ctrl, history, plugin_state, Grp.qacc, actuation, pos, vel, smooth, cfrc, efc_force, sensPos, sensVel,
    sensAcc, rnepost, subtreevel, xfrc_applied, qfrc_applied]
+
+/-! #### leaf footprints of the constraint solvers (second layer)
+
+The DUAL solvers (PGS, and the NoSlip post-pass) iterate on `efc_force` IN PLACE: its content on entry is their initial
+iterate, so it is an input.  The PRIMAL solvers (CG, Newton) iterate on `qacc` (monolithic) or on the island copy `iacc`
+and recompute the constraint forces from it. -/
+
+/-- PGS / NoSlip, monolithic or one island: efc_force is read (initial iterate) and updated in place -/
+def solverDual : Footprint Grp :=
+  { R := [pos, efc_b, efc_force, csol] ++ mem, W := [efc_force, cstate, csol, diag], K := [] }
+
+/-- CG / Newton, monolithic: qacc is read (initial iterate) and updated in place -/
+def solverPrimal : Footprint Grp :=
+  { R := [pos, vel, smooth, Grp.qacc, csol] ++ mem, W := [Grp.qacc, efc_force, cstate, cfrc, csol, diag], K := [] }
+
+/-- CG / Newton on the island copies -/
+def solverPrimalIsland : Footprint Grp :=
+  { R := [pos, ifrc_smooth, iacc_smooth, iacc, iefc_aref, csol] ++ mem
+    W := [iacc, ifrc_constraint, iefc_force, iscratch, csol, diag], K := [] }
+
+/-- a leaf that also receives a local of its caller by value -/
+def withLocals (fp : Footprint Grp) : Footprint Grp := { fp with R := fp.R ++ [locals] }
+
+/-- source text of the island dispatch of mj_fwdConstraint; which solver `solveIslandTask` runs is a model constant -/
+def dispatchKey : String := "mju_dispatch(m, d, solveIslandTask, NULL, nisland)"
+
+/-- footprint of the island dispatch when `m->opt.solver` is known, the union of the cases otherwise -/
+def dispatchFp : Option String → Footprint Grp
+  | some "mjSOL_PGS" => withLocals solverDual
+  | some "mjSOL_CG" => withLocals solverPrimalIsland
+  | some "mjSOL_NEWTON" => withLocals solverPrimalIsland
+  | _ => withLocals { R := uni solverDual.R solverPrimalIsland.R, W := uni solverDual.W solverPrimalIsland.W, K := [] }
 
 /-- footprints without sleeping (`mjENBL_SLEEP` off) -/
 def stageNoSleep (key : String) : Option (Footprint Grp) :=
@@ -236,17 +283,19 @@ def stageNoSleep (key : String) : Option (Footprint Grp) :=
       W := [smooth, diag]
       K := [smooth] }
   | "mj_fwdConstraint" => some
+    -- justified from the translated body and the leaf footprints below: `C01.fwdConstraint_refines_footprint`
     { R := [pos, vel, smooth, qacc_warmstart] ++ mem
-      W := [cfrc, cstate, csol, iscratch, Grp.qacc, diag]
-      K := [cfrc, csol, Grp.qacc] }
+      W := [cfrc, efc_force, cstate, csol, efc_b] ++ islandGroups ++ [Grp.qacc, diag]
+      K := [cfrc, efc_force, csol, efc_b, Grp.qacc] }
   | "mj_sensorAcc" => some
-    { R := [pos, vel, actuation, cfrc, Grp.qacc, qpos, qvel, xfrc_applied, rnepost, subtreevel] ++ sensCommon ++ mem
+    { R := [pos, vel, actuation, cfrc, efc_force, Grp.qacc, qpos, qvel, xfrc_applied, rnepost, subtreevel] ++ sensCommon ++ mem
       W := [sensAcc, rnepost, subtreevel, diag]
       K := [sensAcc, rnepost, subtreevel] }
   | "mj_invConstraint" => some
+    -- justified from the translated body: `C01.invConstraint_refines_footprint`
     { R := [pos, vel, Grp.qacc] ++ mem
-      W := [cfrc, cstate, diag]
-      K := [cfrc] }
+      W := [cfrc, efc_force, cstate, diag]
+      K := [cfrc, efc_force] }
   | "mj_discreteAcc" => some
     { R := [pos, vel, qpos, qvel, Grp.qacc, ctrl, act, sleep] ++ mem
       W := [Grp.qacc, integ, vel, diag]
@@ -292,13 +341,36 @@ def stageNoSleep (key : String) : Option (Footprint Grp) :=
   | "mjSTACKALLOC(d, 2*nv+na, mjtNum)" => some { R := mem ++ [locals], W := [stack, diag, locals], K := [] }
   | "mjSTACKALLOC(d, nq+nv+na, mjtNum)" => some { R := mem ++ [locals], W := [stack, diag, locals], K := [] }
   | "mjSTACKALLOC(d, nv+na, mjtNum)" => some { R := mem ++ [locals], W := [stack, diag, locals], K := [] }
+  -- second layer: the leaf calls of mj_fwdConstraint / warmstart / mj_invConstraint (Gen.Pipeline.subStageKeys)
+  | "mj_mulJacVec(m, d, d->efc_b, d->qacc_smooth)" => some
+    { R := [pos, smooth] ++ mem, W := [efc_b, diag], K := [efc_b] }
+  | "mj_mulJacVec(m, d, jar, d->qacc_warmstart)" => some
+    { R := [pos, qacc_warmstart, locals] ++ mem, W := [locals, diag], K := [] }
+  | "mj_mulJacVec(m, d, jar, d->qacc)" => some
+    { R := [pos, Grp.qacc, locals] ++ mem, W := [locals, diag], K := [] }
+  | "mj_mulM(m, d, Ma, d->qacc_warmstart)" => some
+    { R := [pos, qacc_warmstart, locals] ++ mem, W := [locals, diag], K := [] }
+  -- efc_state, efc_force from jar (a local / efc_b), then qfrc_constraint = J' efc_force; the cost goes to a local
+  | "mj_constraintUpdate(m, d, jar, &cost_warmstart, 0)" => some
+    { R := [pos, locals] ++ mem, W := [efc_force, cstate, cfrc, locals, diag], K := [efc_force, cstate, cfrc] }
+  | "mj_constraintUpdate(m, d, d->efc_b, &cost_smooth, 0)" => some
+    { R := [pos, efc_b, locals] ++ mem, W := [efc_force, cstate, cfrc, locals, diag], K := [efc_force, cstate, cfrc] }
+  | "mj_constraintUpdate(m, d, jar, NULL, 0)" => some
+    { R := [pos, locals] ++ mem, W := [efc_force, cstate, cfrc, diag], K := [efc_force, cstate, cfrc] }
+  | "mj_solPGS(m, d, m->opt.iterations)" => some solverDual
+  | "mj_solCG(m, d, m->opt.iterations)" => some solverPrimal
+  | "mj_solNewton(m, d, m->opt.iterations)" => some solverPrimal
+  | "mj_solNoSlip(m, d, m->opt.noslip_iterations)" => some solverDual
+  | "mj_solNoSlip_island(m, d, island, m->opt.noslip_iterations)" => some (withLocals solverDual)
+  | "mj_dualFinish" => some
+    { R := [pos, efc_force, smooth] ++ mem, W := [cfrc, Grp.qacc, diag], K := [cfrc, Grp.qacc] }
   | _ => none
 
 /-- groups whose arrays are only partially rewritten (entries of sleeping trees are kept) when sleeping is
     enabled -/
 def latentGroups : List Grp :=
-  [pos, vel, subtreevel, actuation, smooth, cfrc, cstate, csol, iscratch, Grp.qacc, qfrc_inverse, rnepost, sensPos,
-   sensVel, sensAcc, ePos, eVel, integ]
+  [pos, vel, subtreevel, actuation, smooth, cfrc, efc_force, cstate, csol, efc_b] ++ islandGroups ++
+  [Grp.qacc, qfrc_inverse, rnepost, sensPos, sensVel, sensAcc, ePos, eVel, integ]
 
 /-- footprints with sleeping enabled: every stage additionally reads the sleep bookkeeping, and nothing
     in a latent group counts as determined; the position stage (mj_kinematics → mj_wake) additionally reads
@@ -338,6 +410,12 @@ def atomFp (sleeping : Bool) (text : String) (r w k : List String) : Footprint G
 def ctx (sleeping : Bool) : FpCtx Grp :=
   { stage := if sleeping then stageSleep else stageNoSleep
     atom := atomFp sleeping
+    grp := grp }
+
+/-- the context of the second layer (no sleeping): as `ctx false`, with the island dispatch resolved by the solver -/
+def ctxS (solver : Option String) : FpCtx Grp :=
+  { stage := fun key => if key = dispatchKey then some (dispatchFp solver) else stageNoSleep key
+    atom := atomFp false
     grp := grp }
 
 end MjProof.Footprint
